@@ -530,13 +530,15 @@ func convertUint32(u *uint32, defaultValue uint32) uint32 {
 
 func sendErrConnack(cli *client, err error) {
 	codeErr := converError(err)
-	// Override the error code if it is invalid for V3 client.
-	if packets.IsVersion3X(cli.version) && codeErr.Code > codes.V3NotAuthorized {
-		codeErr.Code = codes.NotAuthorized
+	// Override the error code if it is invalid for V3 client. The error value belongs to whoever
+	// returned it (a hook, or one of the shared values such as codes.ErrProtocol): it is not modified.
+	code := codeErr.Code
+	if packets.IsVersion3X(cli.version) && code > codes.V3NotAuthorized {
+		code = codes.NotAuthorized
 	}
 	cli.out <- &packets.Connack{
 		Version:    cli.version,
-		Code:       codeErr.Code,
+		Code:       code,
 		Properties: getErrorProperties(cli, &codeErr.ErrorDetails),
 	}
 }
